@@ -1,8 +1,1597 @@
-//! C19 — not built yet.
+//! C19 — malformed input never crashes the library or the CLI (DESIGN §4 C19).
+//!
+//! Library subject runs in E3 crash-isolating workers (`check_isolated`); every API call is
+//! wrapped in `engine::catch` so a panic becomes a Fail whose signature names the
+//! sub-check, the API and the panic site (`C19/<sub>/<api>/panic@<file>/<class>`); a worker
+//! that dies (stack overflow, abort, signal) becomes `C19/<sub>/process-abort/<kind>`.
+//! All failures of a case are collected; the first one that is not a listed known finding
+//! is reported, so an open finding does not mask a second root cause on the same input.
+use crate::cli;
 use crate::engine::*;
+use crate::gen::json as gj;
+use crate::gen::soup;
+use crate::isolate::IsoOpts;
+use serde_json::{json, Value};
+use succinctly::dsv::{self, Dsv, DsvConfig, DsvCursor};
+use succinctly::jq::document::{DocumentCursor, DocumentElements, DocumentFields, DocumentValue, IndentSpec};
+use succinctly::jq::{self, ParserMode};
+use succinctly::json::light::{JsonCursor, StandardJson};
+use succinctly::json::{JsonIndex, SimpleJsonIndex};
+use succinctly::yaml::{YamlCursor, YamlIndex, YamlValue};
 
-pub const RULE: &str = "not built";
+pub const RULE: &str = "inputs: raw bytes (5 distributions) | token soups over the JSON / YAML / jq alphabets (incl. invalid UTF-8, non-ASCII) | G-json documents, YAML-Test-Suite / JSON-test-suite / jq-golden / yq-golden fixtures and a block/flow YAML snippet generator, each as-is, truncated at a drawn offset or mutated (byte set, bit flip, delete, token insert, splice, block duplication, indent shift, CRLF, swap) | deep shapes (one unit repeated 200..400k times). Subject per DESIGN: build + validate + bounded iterative walk of every node with every accessor + offsets + printers (library, in crash-isolated workers), 5 CLI commands on the same bytes, 4 parser entry points on program strings. Oracle: no panic / abort / signal / exit 101. Non-trivial: a non-validating loader accepts the input with >= 3 nodes while the strict validator rejects it (DSV: >= 3 markers and an odd number of quote bytes; programs: >= 3 bytes and at least one parser rejects); distinct by hash(input bytes).";
+
+// ---------------------------------------------------------------- failure collection
+
+fn msg_class(msg: &str) -> &'static str {
+    let m = msg;
+    if m.contains("nesting depth exceeds limit") {
+        "depth-guard"
+    } else if m.contains("range end index") || m.contains("out of range for slice") {
+        if m.contains("range start index") {
+            "slice-start-oob"
+        } else {
+            "slice-end-oob"
+        }
+    } else if m.contains("range start index") {
+        "slice-start-oob"
+    } else if m.contains("slice index starts at") {
+        "slice-start-after-end"
+    } else if m.contains("index out of bounds") {
+        "index-oob"
+    } else if m.contains("subtract with overflow") {
+        "sub-overflow"
+    } else if m.contains("add with overflow") {
+        "add-overflow"
+    } else if m.contains("multiply with overflow") {
+        "mul-overflow"
+    } else if m.contains("shift") && m.contains("overflow") {
+        "shift-overflow"
+    } else if m.contains("char boundary") {
+        "char-boundary"
+    } else if m.contains("Option::unwrap()") {
+        "unwrap-none"
+    } else if m.contains("Result::unwrap()") {
+        "unwrap-err"
+    } else if m.contains("assertion") {
+        "assert"
+    } else if m.contains("unreachable") {
+        "unreachable"
+    } else if m.contains("capacity overflow") {
+        "capacity-overflow"
+    } else if m.contains("divide by zero") || m.contains("remainder with a divisor of zero") {
+        "div-zero"
+    } else {
+        "other"
+    }
+}
+
+/// Signature family of an API name: entry points that share one implementation (the four
+/// parser entry points, the YAML printers, ...) map to one family so one root cause gets one
+/// signature; the exact API stays in the failure detail.
+fn family(api: &str) -> &str {
+    match api {
+        "jq::parse" | "jq::parse_program" | "jq::parse_with_mode(Yq)" | "jq::parse_program_with_mode(Yq)" => "jq::parse*",
+        "YamlCursor::stream_yaml" | "YamlCursor::stream_yaml(trait)" | "YamlCursor::stream_yaml_as_document" | "YamlCursor::stream_yaml_document" | "YamlCursor::documents-yaml" => "YamlCursor::stream_yaml*",
+        "YamlCursor::to_json" | "YamlCursor::to_json_document" | "YamlCursor::stream_json" | "YamlCursor::stream_json(trait)" | "YamlCursor::stream_json_document" | "YamlCursor::documents-json" => "YamlCursor::to_json*",
+        "JsonCursor::stream_yaml" | "JsonCursor::stream_yaml_as_document" => "JsonCursor::stream_yaml*",
+        "dsv::build_index" | "dsv::build_index_scalar" | "Dsv::parse_with_config" => "dsv::build_index*",
+        a => a,
+    }
+}
+
+/// Panic sites in the shared low-level modules are a root cause of their own, whatever
+/// accessor reached them: the signature then names the site, not the API.
+fn low_level_site(file: &str) -> bool {
+    ["src/trees/", "src/bits/", "src/util/", "src/text/", "src/binary"].iter().any(|p| file.starts_with(p))
+}
+
+/// Panic site as a path relative to the crate root ("src/json/light.rs"), wherever the
+/// checkout of the tree under test lives; line and column dropped so edits do not move it.
+fn site_of(loc: &str) -> String {
+    let s = panic_sig(loc);
+    match s.rfind("/src/") {
+        Some(i) => s[i + 1..].to_string(),
+        None => s,
+    }
+}
+
+/// the N of "nesting depth exceeds limit of N"
+fn guard_limit(msg: &str) -> Option<usize> {
+    let i = msg.find("nesting depth exceeds limit of ")?;
+    let rest = &msg[i + "nesting depth exceeds limit of ".len()..];
+    let n: String = rest.chars().take_while(|c| c.is_ascii_digit()).collect();
+    n.parse().ok()
+}
+
+struct Env<'a> {
+    sub: &'a str,
+    input: &'a [u8],
+    known: &'a [String],
+    fails: Vec<Fail>,
+    tolerated_guard: u32,
+    measure: Option<usize>,
+    apis: u64,
+}
+
+impl<'a> Env<'a> {
+    fn new(sub: &'a str, input: &'a [u8], known: &'a [String]) -> Self {
+        Env { sub, input, known, fails: vec![], tolerated_guard: 0, measure: None, apis: 0 }
+    }
+    fn panicked(&mut self, api: &str, p: (String, String)) {
+        let (loc, msg) = p;
+        if let Some(n) = guard_limit(&msg) {
+            let m = *self.measure.get_or_insert_with(|| soup::nesting_measure(self.input));
+            if m > n {
+                self.tolerated_guard += 1;
+                return;
+            }
+            let sig = format!("C19/lib/{}/depth-guard-below-limit", family(api));
+            self.push(sig, api, &loc, &msg);
+            return;
+        }
+        let site = site_of(&loc);
+        let sig = if low_level_site(&site) {
+            format!("C19/lib/panic@{}/{}", site, msg_class(&msg))
+        } else {
+            format!("C19/lib/{}/panic@{}/{}", family(api), site, msg_class(&msg))
+        };
+        self.push(sig, api, &loc, &msg);
+    }
+    fn push(&mut self, sig: String, api: &str, loc: &str, msg: &str) {
+        if self.fails.iter().any(|f| f.sig == sig) {
+            return;
+        }
+        let mut d = json!({"subcheck": self.sub, "api": api, "panic": msg, "location": loc, "input_len": self.input.len(), "input": show_bytes(self.input)});
+        if self.input.len() <= 4096 {
+            d["input_hex"] = json!(hex(self.input));
+        }
+        self.fails.push(Fail::new(sig, d));
+    }
+    fn finish(self, st: &mut Stats) -> Result<(), Fail> {
+        st.evals(self.apis);
+        st.class_if(self.tolerated_guard > 0, "documented-depth-guard-tolerated");
+        let mut first_known = None;
+        if std::env::var("VH_C19_SURVEY").is_ok() {
+            // development aid: list every failing signature instead of stopping at the first
+            for f in self.fails {
+                st.class(&format!("FAIL:{}", f.sig));
+                st.sample(&format!("FAIL:{}", f.sig), || f.detail.clone());
+            }
+            return Ok(());
+        }
+        for f in self.fails {
+            if self.known.iter().any(|k| *k == f.sig) {
+                if first_known.is_none() {
+                    first_known = Some(f);
+                } else {
+                    st.known_hit(&f.sig);
+                }
+            } else {
+                return Err(f);
+            }
+        }
+        match first_known {
+            Some(f) => Err(f), // the engine counts and excludes it
+            None => Ok(()),
+        }
+    }
+}
+
+/// Run one API call under catch_unwind; None if it panicked (recorded in env).
+macro_rules! api {
+    ($env:expr, $name:expr, $e:expr) => {{
+        $env.apis += 1;
+        let t0 = if trace_on() { Some(std::time::Instant::now()) } else { None };
+        let r = catch(|| $e);
+        if let Some(t) = t0 {
+            if t.elapsed().as_millis() > 300 {
+                eprintln!("slow api {} {} ms", $name, t.elapsed().as_millis());
+            }
+        }
+        match r {
+            Ok(v) => Some(v),
+            Err(p) => {
+                $env.panicked($name, p);
+                None
+            }
+        }
+    }};
+}
+
+/// development aid: VH_C19_TRACE=1 reports API calls slower than 300 ms on stderr
+fn trace_on() -> bool {
+    static T: std::sync::OnceLock<bool> = std::sync::OnceLock::new();
+    *T.get_or_init(|| std::env::var("VH_C19_TRACE").is_ok())
+}
+
+struct Sink {
+    n: usize,
+    cap: usize,
+}
+impl core::fmt::Write for Sink {
+    fn write_str(&mut self, s: &str) -> core::fmt::Result {
+        self.n += s.len();
+        if self.n > self.cap {
+            Err(core::fmt::Error) // bounded output: alias bombs must not exhaust memory
+        } else {
+            Ok(())
+        }
+    }
+}
+fn sink() -> Sink {
+    Sink { n: 0, cap: 2 << 20 }
+}
+
+/// Offsets to probe: all of them for small inputs, a strided sample + edges otherwise.
+fn sample_offsets(len: usize, dense_limit: usize) -> Vec<usize> {
+    let mut v: Vec<usize> = if len <= dense_limit {
+        (0..len).collect()
+    } else {
+        let step = len / dense_limit + 1;
+        let mut v: Vec<usize> = (0..len).step_by(step).collect();
+        v.extend(0..64.min(len));
+        v.extend(len.saturating_sub(64)..len);
+        v.extend((len / 2).saturating_sub(16)..(len / 2 + 16).min(len));
+        v
+    };
+    v.extend([len, len + 1]);
+    v
+}
+
+const WALK_BUDGET: usize = 3000;
+
+// ---------------------------------------------------------------- JSON subject
+
+pub const G_BUILD: u32 = 1;
+pub const G_VALIDATE: u32 = 2;
+pub const G_WALK: u32 = 4;
+pub const G_OFFSETS: u32 = 8;
+pub const G_STREAM_JSON: u32 = 16;
+pub const G_STREAM_YAML: u32 = 32;
+pub const G_ALL: u32 = 63;
+
+#[derive(Default)]
+struct Summary {
+    nodes: usize,
+    loader_ok: bool,
+    validator_ok: bool,
+}
+
+fn json_visit(env: &mut Env, c: JsonCursor<'_, Vec<u64>>) {
+    api!(env, "JsonCursor::is_container", c.is_container());
+    api!(env, "JsonCursor::text_position", c.text_position());
+    api!(env, "JsonCursor::line", c.line());
+    api!(env, "JsonCursor::column", c.column());
+    api!(env, "JsonCursor::parent", c.parent());
+    api!(env, "JsonCursor::text_range", c.text_range());
+    api!(env, "JsonCursor::raw_bytes", c.raw_bytes());
+    api!(env, "JsonCursor::is_falsy", DocumentCursor::is_falsy(&c));
+    let Some(v) = api!(env, "JsonCursor::value", c.value()) else { return };
+    api!(env, "StandardJson::as_str", DocumentValue::as_str(&v).map(|s| s.len()));
+    api!(env, "StandardJson::as_i64", DocumentValue::as_i64(&v));
+    api!(env, "StandardJson::as_f64", DocumentValue::as_f64(&v));
+    api!(env, "StandardJson::number_literal", DocumentValue::number_literal(&v).map(|s| s.len()));
+    api!(env, "StandardJson::type_name", (DocumentValue::type_name(&v), DocumentValue::is_null(&v), DocumentValue::as_bool(&v), DocumentValue::is_error(&v)));
+    match v {
+        StandardJson::String(s) => {
+            api!(env, "JsonString::as_str", s.as_str().map(|x| x.len()));
+            api!(env, "JsonString::raw_bytes", s.raw_bytes().len());
+            api!(env, "JsonString::raw_and_escaped", s.raw_and_escaped().0.len());
+        }
+        StandardJson::Number(n) => {
+            api!(env, "JsonNumber::raw_bytes", n.raw_bytes().len());
+            api!(env, "JsonNumber::as_i64", n.as_i64());
+            api!(env, "JsonNumber::as_f64", n.as_f64());
+        }
+        StandardJson::Object(f) => {
+            api!(env, "JsonFields::is_empty", f.is_empty());
+            let mut first_key: Option<String> = None;
+            api!(env, "JsonFields::iterate", {
+                let mut ff = f;
+                let mut k = 0;
+                while let Some((field, rest)) = ff.uncons() {
+                    let key = field.key();
+                    if first_key.is_none() {
+                        if let StandardJson::String(s) = &key {
+                            first_key = s.as_str().ok().map(|c| c.into_owned());
+                        }
+                    }
+                    let _ = field.value();
+                    let _ = field.key_cursor().bp_position() + field.value_cursor().bp_position();
+                    ff = rest;
+                    k += 1;
+                    if k >= 64 {
+                        break;
+                    }
+                }
+                k
+            });
+            let name = first_key.unwrap_or_else(|| "a".to_string());
+            api!(env, "JsonFields::find", f.find(&name).is_some());
+            api!(env, "JsonFields::find", f.find("\u{0}no such key").is_some());
+            api!(env, "JsonFields::find_cursor", f.find_cursor(&name).is_some());
+            api!(env, "JsonFields::uncons(trait)", DocumentFields::uncons(&f).is_some());
+        }
+        StandardJson::Array(e) => {
+            api!(env, "JsonElements::is_empty", e.is_empty());
+            api!(env, "JsonElements::uncons", e.uncons().is_some());
+            api!(env, "JsonElements::uncons_cursor", e.uncons_cursor().is_some());
+            api!(env, "JsonElements::get", (e.get(0).is_some(), e.get(1).is_some(), e.get(70).is_some()));
+            api!(env, "JsonElements::get_fast", (e.get_fast(0).is_some(), e.get_fast(2).is_some(), DocumentElements::get(&e, 70).is_some()));
+            api!(env, "JsonElements::cursor_iter", e.cursor_iter().take(64).count());
+        }
+        _ => {}
+    }
+    api!(env, "JsonCursor::children", c.children().take(64).count());
+}
+
+fn json_subject(env: &mut Env, text: &[u8], groups: u32) -> Summary {
+    let mut sm = Summary::default();
+    if groups & G_VALIDATE != 0 {
+        if let Some(r) = api!(env, "json::validate", succinctly::json::validate::validate(text).is_ok()) {
+            sm.validator_ok = r;
+        }
+    }
+    let Some(index) = api!(env, "JsonIndex::build", JsonIndex::build(text)) else { return sm };
+    sm.loader_ok = true;
+    let root = index.root(text);
+    let mut firsts: Vec<JsonCursor<'_, Vec<u64>>> = vec![];
+    if groups & G_WALK != 0 {
+        let mut stack = vec![root];
+        while let Some(c) = stack.pop() {
+            sm.nodes += 1;
+            if sm.nodes > WALK_BUDGET {
+                break;
+            }
+            if firsts.len() < 6 || (sm.nodes % 97 == 0 && firsts.len() < 12) {
+                firsts.push(c);
+            }
+            json_visit(env, c);
+            if let Some(Some(s)) = api!(env, "JsonCursor::next_sibling", c.next_sibling()) {
+                stack.push(s);
+            }
+            if let Some(Some(f)) = api!(env, "JsonCursor::first_child", c.first_child()) {
+                stack.push(f);
+            }
+        }
+    } else {
+        sm.nodes = index.bp().len() / 2;
+        firsts.push(root);
+    }
+    if groups & G_OFFSETS != 0 {
+        for o in sample_offsets(text.len(), 2048) {
+            if let Some(Some(c)) = api!(env, "JsonCursor::cursor_at_offset", root.cursor_at_offset(o)) {
+                api!(env, "JsonCursor::value", matches!(c.value(), StandardJson::Error(_)));
+                api!(env, "JsonCursor::text_range", c.text_range());
+                if groups & G_WALK == 0 {
+                    // deep mode: also look at the node found far down
+                    json_visit(env, c);
+                    let mut p = c;
+                    for _ in 0..64 {
+                        match api!(env, "JsonCursor::parent", p.parent()) {
+                            Some(Some(q)) => p = q,
+                            _ => break,
+                        }
+                    }
+                }
+            }
+            if let Some((l, col)) = api!(env, "JsonIndex::to_line_column", index.to_line_column(o, text)) {
+                api!(env, "JsonIndex::to_offset", index.to_offset(l, col, text));
+                api!(env, "JsonCursor::cursor_at_position", root.cursor_at_position(l, col).is_some());
+            }
+        }
+        for (l, c) in [(0usize, 0usize), (0, 1), (1, 0), (1, 1 << 20), (1 << 20, 1)] {
+            api!(env, "JsonIndex::to_offset", index.to_offset(l, c, text));
+            api!(env, "JsonCursor::cursor_at_position", root.cursor_at_position(l, c).is_some());
+        }
+    }
+    for c in firsts {
+        if groups & G_STREAM_JSON != 0 {
+            api!(env, "JsonCursor::stream_json", DocumentCursor::stream_json(&c, &mut sink(), IndentSpec::COMPACT, false).is_ok());
+            api!(env, "JsonCursor::stream_json", DocumentCursor::stream_json(&c, &mut sink(), IndentSpec::spaces(2), true).is_ok());
+        }
+        if groups & G_STREAM_YAML != 0 {
+            api!(env, "JsonCursor::stream_yaml", DocumentCursor::stream_yaml(&c, &mut sink(), IndentSpec::spaces(2), false).is_ok());
+            api!(env, "JsonCursor::stream_yaml", DocumentCursor::stream_yaml(&c, &mut sink(), IndentSpec::COMPACT, false).is_ok());
+            api!(env, "JsonCursor::stream_yaml_as_document", DocumentCursor::stream_yaml_as_document(&c, &mut sink(), IndentSpec::spaces(4), false).is_ok());
+        }
+    }
+    sm
+}
+
+fn simple_subject(env: &mut Env, text: &[u8]) -> Summary {
+    let mut sm = Summary::default();
+    // classification only (the validator itself is exercised by json-lib)
+    sm.validator_ok = catch(|| succinctly::json::validate::validate(text).is_ok()).unwrap_or(false);
+    let Some(ix) = api!(env, "SimpleJsonIndex::build", SimpleJsonIndex::build(text)) else { return sm };
+    sm.loader_ok = true;
+    let n = api!(env, "SimpleJsonIndex::structural_count", ix.structural_count()).unwrap_or(0);
+    sm.nodes = n;
+    let ks: Vec<usize> = if n <= 1024 { (0..n + 2).collect() } else { (0..n).step_by(n / 1024 + 1).chain([n - 1, n, n + 1]).collect() };
+    for k in ks {
+        api!(env, "SimpleJsonIndex::structural_pos", ix.structural_pos(k));
+    }
+    api!(env, "SimpleJsonIndex::structural_pos", ix.structural_pos(n + 1000));
+    api!(env, "SimpleJsonIndex::structural_positions", ix.structural_positions(text).take(5000).count());
+    let mut kids = 0;
+    for p in sample_offsets(text.len(), 1024) {
+        api!(env, "SimpleJsonIndex::structural_index", ix.structural_index(p));
+        api!(env, "SimpleJsonIndex::find_close", ix.find_close(text, p));
+        api!(env, "SimpleJsonIndex::skip_value", ix.skip_value(text, p));
+        if kids < 200 {
+            if let Some(Some(n)) = api!(env, "SimpleJsonIndex::children", ix.children(text, p).map(|c| c.take(3000).count())) {
+                kids += 1 + n / 64;
+            }
+        }
+    }
+    sm
+}
+
+// ---------------------------------------------------------------- YAML subject
+
+pub const Y_VALIDATE: u32 = 1;
+pub const Y_WALK: u32 = 2;
+pub const Y_OFFSETS: u32 = 4;
+pub const Y_JSON_OUT: u32 = 8;
+pub const Y_YAML_OUT: u32 = 16;
+pub const Y_ALL: u32 = 31;
+
+fn yaml_visit(env: &mut Env, c: YamlCursor<'_, Vec<u64>>, print: bool) {
+    api!(env, "YamlCursor::is_container", c.is_container());
+    api!(env, "YamlCursor::text_position", (c.text_position(), c.text_end_position()));
+    api!(env, "YamlCursor::line", c.line());
+    api!(env, "YamlCursor::column", c.column());
+    api!(env, "YamlCursor::document_index", c.document_index());
+    api!(env, "YamlCursor::parent", c.parent().is_some());
+    api!(env, "YamlCursor::anchor", c.anchor().map(|s| s.len()));
+    api!(env, "YamlCursor::explicit_tag", c.explicit_tag().map(|s| s.len()));
+    api!(env, "YamlCursor::tag", c.tag());
+    api!(env, "YamlCursor::kind", c.kind());
+    api!(env, "YamlCursor::style", c.style());
+    api!(env, "YamlCursor::alias", (c.alias().map(|s| s.len()), c.is_alias()));
+    api!(env, "YamlCursor::line_comment", c.line_comment().map(|s| s.len()));
+    api!(env, "YamlCursor::line_comment_raw", c.line_comment_raw().map(|s| s.len()));
+    api!(env, "YamlCursor::line_comment_checked", c.line_comment_checked().map(|o| o.map(|s| s.len())).is_ok());
+    api!(env, "YamlCursor::raw_bytes", c.raw_bytes().map(|b| b.len()));
+    api!(env, "YamlCursor::resolve_alias_target_cursor", c.resolve_alias_target_cursor().is_some());
+    api!(env, "YamlCursor::is_falsy", DocumentCursor::is_falsy(&c));
+    api!(env, "YamlCursor::children", c.children().take(64).count());
+    let Some(v) = api!(env, "YamlCursor::value", c.value()) else { return };
+    api!(env, "YamlValue::as_str", DocumentValue::as_str(&v).map(|s| s.len()));
+    api!(env, "YamlValue::as_i64", DocumentValue::as_i64(&v));
+    api!(env, "YamlValue::as_f64", DocumentValue::as_f64(&v));
+    api!(env, "YamlValue::as_bool", DocumentValue::as_bool(&v));
+    api!(env, "YamlValue::number_literal", DocumentValue::number_literal(&v).map(|s| s.len()));
+    api!(env, "YamlValue::type_name", (DocumentValue::type_name(&v), DocumentValue::is_null(&v), DocumentValue::is_error(&v)));
+    api!(env, "YamlValue::as_object", DocumentValue::as_object(&v).is_some());
+    api!(env, "YamlValue::as_array", DocumentValue::as_array(&v).is_some());
+    api!(env, "YamlValue::key_string", v.key_string().len());
+    match v {
+        YamlValue::String(s) => {
+            api!(env, "YamlString::as_str", s.as_str().map(|x| x.len()).is_ok());
+            api!(env, "YamlString::raw_bytes", s.raw_bytes().len());
+            api!(env, "YamlString::is_unquoted", s.is_unquoted());
+        }
+        YamlValue::Mapping(f) => {
+            api!(env, "YamlFields::is_empty", f.is_empty());
+            let mut first_key: Option<String> = None;
+            api!(env, "YamlFields::iterate", {
+                let mut ff = f.clone();
+                let mut k = 0;
+                while let Some((field, rest)) = ff.uncons() {
+                    let key = field.key();
+                    if first_key.is_none() {
+                        first_key = Some(key.key_string().into_owned());
+                    }
+                    let _ = field.value();
+                    let _ = field.key_cursor().bp_position() + field.value_cursor().bp_position();
+                    ff = rest;
+                    k += 1;
+                    if k >= 64 {
+                        break;
+                    }
+                }
+                k
+            });
+            let name = first_key.unwrap_or_else(|| "a".to_string());
+            api!(env, "YamlFields::find", (f.find(&name).is_some(), f.find("<<").is_some()));
+            api!(env, "YamlFields::find_cursor", f.find_cursor(&name).is_some());
+            api!(env, "YamlFields::uncons(trait)", DocumentFields::uncons(&f).is_some());
+        }
+        YamlValue::Sequence(e) => {
+            api!(env, "YamlElements::is_empty", e.is_empty());
+            api!(env, "YamlElements::uncons", e.uncons().is_some());
+            api!(env, "YamlElements::uncons_cursor", e.uncons_cursor().is_some());
+            api!(env, "YamlElements::uncons_resolved_cursor", e.uncons_resolved_cursor().is_some());
+            api!(env, "YamlElements::get", (e.get(0).is_some(), e.get(3).is_some(), DocumentElements::get(&e, 70).is_some()));
+        }
+        YamlValue::Alias { target, .. } => {
+            if let Some(t) = target {
+                api!(env, "YamlCursor::value(alias-target)", matches!(t.value(), YamlValue::Error(_)));
+            }
+        }
+        _ => {}
+    }
+    if print {
+        api!(env, "YamlCursor::to_json", c.to_json().len());
+        api!(env, "YamlCursor::stream_yaml", c.stream_yaml(&mut sink(), IndentSpec::spaces(2), false).is_ok());
+        api!(env, "YamlCursor::stream_yaml_as_document", c.stream_yaml_as_document(&mut sink(), IndentSpec::spaces(2), true).is_ok());
+        api!(env, "YamlCursor::stream_json", c.stream_json(&mut sink(), IndentSpec::spaces(2), false).is_ok());
+    }
+}
+
+fn yaml_subject(env: &mut Env, text: &[u8], groups: u32) -> Summary {
+    let mut sm = Summary::default();
+    if groups & Y_VALIDATE != 0 {
+        if let Some(r) = api!(env, "yaml::validate", succinctly::yaml::validate::validate(text).is_ok()) {
+            sm.validator_ok = r;
+        }
+    }
+    let Some(built) = api!(env, "YamlIndex::build", YamlIndex::build(text)) else { return sm };
+    let Ok(index) = built else { return sm };
+    sm.loader_ok = true;
+    let root = index.root(text);
+    if groups & Y_WALK != 0 {
+        let mut stack = vec![root];
+        while let Some(c) = stack.pop() {
+            sm.nodes += 1;
+            if sm.nodes > WALK_BUDGET {
+                break;
+            }
+            let print = groups & (Y_JSON_OUT | Y_YAML_OUT) != 0 && (sm.nodes <= 8 || sm.nodes % 61 == 0);
+            yaml_visit(env, c, print);
+            if let Some(Some(s)) = api!(env, "YamlCursor::next_sibling", c.next_sibling()) {
+                stack.push(s);
+            }
+            if let Some(Some(f)) = api!(env, "YamlCursor::first_child", c.first_child()) {
+                stack.push(f);
+            }
+        }
+    } else {
+        sm.nodes = index.bp().len() / 2;
+    }
+    if groups & Y_OFFSETS != 0 {
+        let mut deep_visits = 0;
+        for o in sample_offsets(text.len(), 2048) {
+            if let Some(Some(c)) = api!(env, "YamlCursor::cursor_at_offset", root.cursor_at_offset(o)) {
+                api!(env, "YamlCursor::value", matches!(c.value(), YamlValue::Error(_)));
+                if groups & Y_WALK == 0 && (deep_visits < 24 || o + 64 >= text.len()) && deep_visits < 48 {
+                    // deep mode: full accessor set on a few nodes far from the root
+                    deep_visits += 1;
+                    yaml_visit(env, c, false);
+                }
+            }
+            if let Some((l, col)) = api!(env, "YamlIndex::to_line_column", index.to_line_column(o, text)) {
+                api!(env, "YamlIndex::to_offset", index.to_offset(l, col, text));
+                api!(env, "YamlCursor::cursor_at_position", root.cursor_at_position(l, col).is_some());
+            }
+        }
+        for (l, c) in [(0usize, 0usize), (0, 1), (1, 0), (1, 1 << 20), (1 << 20, 1)] {
+            api!(env, "YamlIndex::to_offset", index.to_offset(l, c, text));
+            api!(env, "YamlCursor::cursor_at_position", root.cursor_at_position(l, c).is_some());
+        }
+    }
+    if groups & Y_WALK == 0 && groups & (Y_JSON_OUT | Y_YAML_OUT) != 0 && text.len() > 2 {
+        // deep mode: print the nodes at the far end first (cheap, and where chains are longest)
+        for o in [text.len() - 2, text.len() / 2] {
+            let Some(Some(mut c)) = api!(env, "YamlCursor::cursor_at_offset", root.cursor_at_offset(o)) else { continue };
+            for up in 0..3 {
+                if groups & Y_JSON_OUT != 0 {
+                    if up == 0 {
+                        // unbounded String: only on the far-end node itself, never on an ancestor
+                        api!(env, "YamlCursor::to_json", c.to_json().len());
+                    }
+                    api!(env, "YamlCursor::stream_json", c.stream_json(&mut sink(), IndentSpec::spaces(2), true).is_ok());
+                }
+                if groups & Y_YAML_OUT != 0 {
+                    api!(env, "YamlCursor::stream_yaml", c.stream_yaml(&mut sink(), IndentSpec::spaces(2), false).is_ok());
+                    api!(env, "YamlCursor::stream_yaml_as_document", c.stream_yaml_as_document(&mut sink(), IndentSpec::COMPACT, true).is_ok());
+                }
+                match api!(env, "YamlCursor::parent", c.parent()) {
+                    Some(Some(p)) if p.bp_position() != 0 => c = p,
+                    _ => break,
+                }
+            }
+        }
+    }
+    // `to_json*` build an unbounded String: alias expansion makes that quadratic in the number
+    // of nested aliases, so for alias-heavy big inputs only the bounded streaming twin runs at
+    // the root (the unbounded one still runs on the far-end nodes above)
+    let alias_heavy = text.len() > 16_384 && text.iter().filter(|&&b| b == b'*').count() > 500;
+    if groups & Y_JSON_OUT != 0 && !alias_heavy {
+        api!(env, "YamlCursor::to_json_document", root.to_json_document().len());
+        api!(env, "YamlCursor::to_json", root.to_json().len());
+    }
+    if groups & Y_JSON_OUT != 0 {
+        api!(env, "YamlCursor::stream_json", root.stream_json(&mut sink(), IndentSpec::COMPACT, false).is_ok());
+        api!(env, "YamlCursor::stream_json", root.stream_json(&mut sink(), IndentSpec::spaces(2), true).is_ok());
+        api!(env, "YamlCursor::stream_json_document", root.stream_json_document(&mut sink(), IndentSpec::spaces(2), false).is_ok());
+        api!(env, "YamlCursor::stream_json(trait)", DocumentCursor::stream_json(&root, &mut sink(), IndentSpec::COMPACT, true).is_ok());
+    }
+    if groups & Y_YAML_OUT != 0 {
+        api!(env, "YamlCursor::stream_yaml_document", root.stream_yaml_document(&mut sink(), IndentSpec::spaces(2), false).is_ok());
+        api!(env, "YamlCursor::stream_yaml_document", root.stream_yaml_document(&mut sink(), IndentSpec::COMPACT, false).is_ok());
+        api!(env, "YamlCursor::stream_yaml_document", root.stream_yaml_document(&mut sink(), IndentSpec::spaces(4), true).is_ok());
+        api!(env, "YamlCursor::stream_yaml", root.stream_yaml(&mut sink(), IndentSpec::spaces(2), false).is_ok());
+        api!(env, "YamlCursor::stream_yaml(trait)", DocumentCursor::stream_yaml(&root, &mut sink(), IndentSpec::spaces(3), false).is_ok());
+    }
+    if groups & (Y_JSON_OUT | Y_YAML_OUT) != 0 {
+        // every document the way `yq` prints them
+        let mut docs = vec![];
+        api!(env, "YamlCursor::documents", {
+            if let YamlValue::Sequence(mut els) = root.value() {
+                while let Some((dc, rest)) = els.uncons_cursor() {
+                    docs.push(dc);
+                    els = rest;
+                    if docs.len() >= 32 {
+                        break;
+                    }
+                }
+            }
+        });
+        for dc in docs {
+            if groups & Y_JSON_OUT != 0 && !alias_heavy {
+                api!(env, "YamlCursor::documents-json", dc.to_json().len());
+            }
+            if groups & Y_YAML_OUT != 0 {
+                api!(env, "YamlCursor::documents-yaml", dc.stream_yaml_as_document(&mut sink(), IndentSpec::spaces(2), false).is_ok());
+                api!(env, "YamlCursor::documents-yaml", dc.stream_yaml_as_document(&mut sink(), IndentSpec::COMPACT, false).is_ok());
+            }
+        }
+    }
+    sm
+}
+
+// ---------------------------------------------------------------- DSV subject
+
+fn dsv_cursor_walk(c: &mut DsvCursor<'_>) -> usize {
+    let mut n = 0;
+    loop {
+        let _ = c.current_field();
+        let _ = c.current_field_str();
+        let _ = (c.position(), c.at_end());
+        n += 1;
+        if !c.next_field() || n > 20_000 {
+            break;
+        }
+    }
+    n
+}
+
+fn dsv_subject(env: &mut Env, text: &[u8], cfg: &DsvConfig) -> Summary {
+    let mut sm = Summary::default();
+    api!(env, "dsv::build_index_scalar", dsv::build_index_scalar(text, cfg).row_count());
+    let Some(ix) = api!(env, "dsv::build_index", dsv::build_index(text, cfg)) else { return sm };
+    sm.loader_ok = true;
+    // DSV has no strict validator: "rejects" = unbalanced quoting (odd number of quote bytes)
+    sm.validator_ok = text.iter().filter(|&&b| b == cfg.quote_char).count() % 2 == 0;
+    let rows = api!(env, "DsvIndex::row_count", (ix.row_count(), ix.marker_count(), ix.is_empty())).map(|t| t.0).unwrap_or(0);
+    sm.nodes = ix.marker_count();
+    api!(env, "DsvCursor::fields-walk", dsv_cursor_walk(&mut DsvCursor::new(text, &ix)));
+    api!(env, "DsvCursor::next_row", {
+        let mut c = DsvCursor::new(text, &ix);
+        let mut n = 0;
+        while c.next_row() && n < 20_000 {
+            let _ = c.current_field();
+            n += 1;
+        }
+        n
+    });
+    let rs: Vec<usize> = if rows <= 300 { (0..rows + 3).collect() } else { (0..rows).step_by(rows / 300 + 1).chain([rows - 1, rows, rows + 1, rows + 2]).collect() };
+    for n in rs.iter().copied().chain([rows + 1000]) {
+        api!(env, "DsvCursor::goto_row", {
+            let mut c = DsvCursor::new(text, &ix);
+            let ok = c.goto_row(n);
+            let _ = c.current_field();
+            ok
+        });
+    }
+    let Some(d) = api!(env, "Dsv::parse_with_config", Dsv::parse_with_config(text, cfg)) else { return sm };
+    api!(env, "Dsv::rows", {
+        let mut total = 0usize;
+        for (i, row) in d.rows().enumerate() {
+            if i > 2000 || total > 40_000 {
+                break;
+            }
+            total += row.fields().take(5000).map(|f| f.len()).count();
+        }
+        total
+    });
+    let mut budget = 0usize;
+    for (i, row) in d.rows().enumerate() {
+        if i > 300 || budget > 4000 {
+            break;
+        }
+        let nf = api!(env, "DsvRow::fields", row.fields().take(5000).count()).unwrap_or(0);
+        let lim = nf.min(40) + 2;
+        budget += lim;
+        for k in 0..lim {
+            api!(env, "DsvRow::get", row.get(k).map(|f| f.len()));
+        }
+        api!(env, "DsvRow::get", row.get(nf + 1000).is_some());
+    }
+    for n in rs {
+        api!(env, "Dsv::row", d.row(n).map(|r| r.fields().take(100).count()));
+    }
+    sm
+}
+
+// ---------------------------------------------------------------- parser subject
+
+fn parse_subject(env: &mut Env, prog: &str) -> Summary {
+    let mut sm = Summary::default();
+    let a = api!(env, "jq::parse", jq::parse(prog).is_ok());
+    let b = api!(env, "jq::parse_program", jq::parse_program(prog).is_ok());
+    let c = api!(env, "jq::parse_with_mode(Yq)", jq::parse_with_mode(prog, ParserMode::Yq).is_ok());
+    let d = api!(env, "jq::parse_program_with_mode(Yq)", jq::parse_program_with_mode(prog, ParserMode::Yq).is_ok());
+    let all = [a, b, c, d];
+    sm.loader_ok = true; // the string reached the parser; "validator" = all four entry points accept
+    sm.validator_ok = all.iter().all(|x| *x == Some(true));
+    sm.nodes = prog.len();
+    sm
+}
+
+// ---------------------------------------------------------------- inputs
+
+pub struct Input {
+    pub bytes: Vec<u8>,
+    pub class: String,
+    /// how to rebuild `bytes` when they are too long to print (deep shapes)
+    pub recipe: Option<Value>,
+}
+
+impl Input {
+    fn new(bytes: Vec<u8>, class: impl Into<String>) -> Input {
+        Input { bytes, class: class.into(), recipe: None }
+    }
+    /// the `input` object of a structured replay file
+    pub fn to_json(&self) -> Value {
+        match &self.recipe {
+            Some(r) if self.bytes.len() > 2048 => r.clone(),
+            _ => json!({"hex": hex(&self.bytes), "shown": show_bytes(&self.bytes)}),
+        }
+    }
+}
+
+fn repeat_recipe(pre: &str, open: &str, inner: &str, close: &str, n: usize, closed: bool) -> Input {
+    let mut b = pre.as_bytes().to_vec();
+    b.extend(soup::deep_shape(open.as_bytes(), inner.as_bytes(), close.as_bytes(), n, closed));
+    Input {
+        bytes: b,
+        class: format!("deep:{}{}", pre, open).replace(' ', "_"),
+        recipe: Some(json!({"repeat": {"pre": pre, "open": open, "inner": inner, "close": close, "n": n, "closed": closed}})),
+    }
+}
+
+fn alias_chain(n: usize) -> Vec<u8> {
+    let mut v = b"a0: &a0 x\n".to_vec();
+    for i in 1..n {
+        v.extend_from_slice(format!("a{}: &a{} *a{}\n", i, i, i - 1).as_bytes());
+    }
+    v
+}
+
+/// anchors nested through aliases: a_i = [*a_(i-1)] (flow) or a block mapping holding the alias
+fn alias_nest(n: usize, block: bool) -> Vec<u8> {
+    let mut v = if block { b"a0: &a0\n  k: x\n".to_vec() } else { b"a0: &a0 [x]\n".to_vec() };
+    for i in 1..n {
+        if block {
+            v.extend_from_slice(format!("a{}: &a{}\n  k: *a{}\n", i, i, i - 1).as_bytes());
+        } else {
+            v.extend_from_slice(format!("a{}: &a{} [*a{}]\n", i, i, i - 1).as_bytes());
+        }
+    }
+    v
+}
+
+fn merge_chain(n: usize) -> Vec<u8> {
+    let mut v = b"a0: &a0 {k: v}\n".to_vec();
+    for i in 1..n {
+        v.extend_from_slice(format!("a{}: &a{} {{<<: *a{}, k{}: v}}\n", i, i, i - 1, i % 7).as_bytes());
+    }
+    v
+}
+
+/// Rebuild input bytes from the `input` object of a replay file.
+pub fn input_from_json(v: &Value) -> Option<Vec<u8>> {
+    if let Some(h) = v.get("hex").and_then(|x| x.as_str()) {
+        return Some(unhex(h));
+    }
+    if let Some(t) = v.get("text").and_then(|x| x.as_str()) {
+        return Some(t.as_bytes().to_vec());
+    }
+    if let Some(r) = v.get("repeat") {
+        let s = |k: &str| r[k].as_str().unwrap_or("").to_string();
+        let mut b = s("pre").into_bytes();
+        b.extend(soup::deep_shape(s("open").as_bytes(), s("inner").as_bytes(), s("close").as_bytes(), r["n"].as_u64()? as usize, r["closed"].as_bool().unwrap_or(false)));
+        return Some(b);
+    }
+    if let Some(r) = v.get("staircase") {
+        return Some(soup::yaml_staircase(r["n"].as_u64()? as usize, r["seq"].as_bool().unwrap_or(false)));
+    }
+    if let Some(r) = v.get("alias_chain") {
+        return Some(alias_chain(r["n"].as_u64()? as usize));
+    }
+    if let Some(r) = v.get("alias_nest") {
+        return Some(alias_nest(r["n"].as_u64()? as usize, r["block"].as_bool().unwrap_or(false)));
+    }
+    if let Some(r) = v.get("merge_chain") {
+        return Some(merge_chain(r["n"].as_u64()? as usize));
+    }
+    None
+}
+
+fn gjson_text(u: &mut Src) -> Vec<u8> {
+    let o = gj::GenOpts { max_depth: u.range(0, 7), max_nodes: u.range(1, 50), ..gj::GenOpts::default() };
+    let j = gj::gen_value(u, &o);
+    let ro = gj::render_opts(u);
+    gj::render(&j, u, ro).text
+}
+
+fn truncate(u: &mut Src, mut v: Vec<u8>) -> Vec<u8> {
+    if !v.is_empty() {
+        let at = if u.ratio(1, 3) { v.len() - 1 - u.below(v.len().min(4)) } else { u.below(v.len()) };
+        v.truncate(at);
+    }
+    v
+}
+
+const JSON_EDGES: &[&[u8]] = &[
+    b"\"", b"\"\\", b"\"a", b"\"\\u12", b"\"\\ud800", b"\"\\ud800\\u", b"{\"a\":\"", b"[1,\"", b"[\"\\", b"{\"", b"{\"a", b"{\"a\"", b"{\"a\":", b"-", b"[-",
+    b"1e", b"[1e", b"-.", b".", b"[.]", b"t", b"[t", b"[tru", b"n", b"f", b"[f]", b"{\"a\":t", b"[\"a\",\"", b"\"\xff", b"[\"\xc3", b"{\"\\", b"[,", b"{,",
+    b"{:", b"]", b"}", b"]]", b"[]]", b"{}}", b",", b":", b"[1 2]", b"{\"a\" 1}", b"[\"a\":1]", b"{1:2}", b"{\"a\":1,}", b"[1,]", b" ", b"\n", b"\xef\xbb\xbf[]",
+    b"1.2.3", b"[1.2.3,-e,+1]", b"0123", b"--1", b"[\"\\u0000\"]", b"[\"\\ud83d\\ude00\"]", b"[\"\\ude00\"]", b"\"\\u00zz\"", b"\"\\", b"[\"\\\"",
+];
+
+fn gen_json_input(u: &mut Src) -> Input {
+    let fx = soup::fixtures();
+    match u.weighted(&[18, 14, 18, 12, 8, 4, 12, 6, 4, 4]) {
+        0 => Input::new(soup::json_soup(u, 40), "src-soup"),
+        1 => {
+            let t = gjson_text(u);
+            Input::new(truncate(u, t), "src-truncated")
+        }
+        2 => {
+            let t = gjson_text(u);
+            let (m, op) = soup::mutate(u, t, soup::JSON_TOKENS);
+            Input::new(m, format!("src-mutated:{}", op))
+        }
+        3 if !fx.json.is_empty() => {
+            let t = fx.json[u.below(fx.json.len())].clone();
+            match u.below(3) {
+                0 => Input::new(t, "src-fixture"),
+                1 => Input::new(truncate(u, t), "src-fixture-truncated"),
+                _ => Input::new(soup::mutate(u, t, soup::JSON_TOKENS).0, "src-fixture-mutated"),
+            }
+        }
+        4 => Input::new(soup::raw_bytes(u, 300), "src-raw"),
+        5 => Input::new(gjson_text(u), "src-valid"),
+        6 => {
+            // edge fragment, alone or appended to / embedded in something valid
+            let e = JSON_EDGES[u.below(JSON_EDGES.len())];
+            let mut v = match u.below(4) {
+                0 => vec![],
+                1 => b"[1,".to_vec(),
+                2 => b"{\"k\":[".to_vec(),
+                _ => {
+                    let t = gjson_text(u);
+                    let mut t = truncate(u, t);
+                    t.truncate(200);
+                    t
+                }
+            };
+            v.extend_from_slice(e);
+            Input::new(v, "src-edge")
+        }
+        7 => {
+            // moderately deep (no stack risk here; the deep-* sub-checks go further)
+            let n = *u.pick(&[3usize, 64, 127, 128, 129, 257, 1000, 3000]);
+            let (o, i, c) = *u.pick(&[("[", "", "]"), ("{\"a\":", "1", "}"), ("[{\"k\":", "\"", "}]"), ("[[],", "0", "]")]);
+            let mut x = repeat_recipe("", o, i, c, n, u.bool());
+            x.class = "src-nested".into();
+            x
+        }
+        8 => {
+            // YAML-ish text through the JSON loaders
+            let t = if !fx.yaml.is_empty() && u.bool() { fx.yaml[u.below(fx.yaml.len())].clone() } else { soup::yaml_snippet(u) };
+            Input::new(t, "src-yaml-text")
+        }
+        _ => {
+            // long scalars / wide containers
+            let n = *u.pick(&[63usize, 64, 65, 500, 4000]);
+            let unit: &[u8] = *u.pick(&[&b"1,"[..], b"\"a\",", b"\\\\", b"9", b"\"k\":1,", b",", b"\\u00e9", b" "]);
+            let mut v = u.pick(&[&b"["[..], b"{", b"\"", b"[\"", b""]).to_vec();
+            for _ in 0..n {
+                v.extend_from_slice(unit);
+            }
+            if u.bool() {
+                v.extend_from_slice(*u.pick(&[&b"]"[..], b"}", b"\"", b"\"]", b"1]"]));
+            }
+            Input::new(v, "src-wide")
+        }
+    }
+}
+
+fn gen_yaml_input(u: &mut Src) -> Input {
+    let fx = soup::fixtures();
+    match u.weighted(&[16, 10, 16, 22, 6, 8, 8, 6, 8]) {
+        0 => Input::new(soup::yaml_soup(u, 40), "src-soup"),
+        1 => Input::new(soup::yaml_snippet(u), "src-snippet"),
+        2 => {
+            let t = soup::yaml_snippet(u);
+            if u.ratio(1, 3) {
+                Input::new(truncate(u, t), "src-truncated")
+            } else {
+                let (m, op) = soup::mutate(u, t, soup::YAML_TOKENS);
+                Input::new(m, format!("src-mutated:{}", op))
+            }
+        }
+        3 if !fx.yaml.is_empty() => {
+            let t = fx.yaml[u.below(fx.yaml.len())].clone();
+            match u.below(4) {
+                0 => Input::new(t, "src-fixture"),
+                1 => Input::new(truncate(u, t), "src-fixture-truncated"),
+                _ => Input::new(soup::mutate(u, t, soup::YAML_TOKENS).0, "src-fixture-mutated"),
+            }
+        }
+        4 => Input::new(soup::raw_bytes(u, 300), "src-raw"),
+        5 => {
+            let t = gjson_text(u);
+            let (m, _) = soup::mutate(u, t, soup::YAML_TOKENS);
+            Input::new(m, "src-json-mutated")
+        }
+        6 => {
+            let n = *u.pick(&[3usize, 30, 100, 127, 128, 129, 300]);
+            let (o, i, c) = *u.pick(&[("[", "", "]"), ("{a: ", "b", "}"), ("- ", "a", ""), ("? ", "a", ""), ("[{a: ", "b", "}]"), ("!t ", "a", ""), ("&a ", "a", ""), ("- ? ", "a", "")]);
+            let mut x = repeat_recipe("", o, i, c, n, u.bool());
+            x.class = "src-nested".into();
+            x
+        }
+        7 => {
+            // anchors / aliases / merges in quantity, staircases
+            let n = *u.pick(&[2usize, 5, 40, 300]);
+            let b = match u.below(5) {
+                0 => alias_chain(n),
+                1 => merge_chain(n.min(40)),
+                2 => soup::yaml_staircase(n.min(120), u.bool()),
+                3 => alias_nest(n.min(60), u.bool()),
+                _ => {
+                    let mut v = b"base: &b {x: 1}\nlist:\n".to_vec();
+                    for _ in 0..n {
+                        v.extend_from_slice(*u.pick(&[&b"  - *b\n"[..], b"  - <<: *b\n", b"  - &b {<<: *b}\n", b"  - *nope\n", b"  - <<: [*b, *b]\n", b"  - <<: x\n"]));
+                    }
+                    v
+                }
+            };
+            let b = if u.ratio(1, 3) { soup::mutate(u, b, soup::YAML_TOKENS).0 } else { b };
+            Input::new(b, "src-anchors")
+        }
+        _ => {
+            // scalar edge cases: quoted / block scalars cut short, escapes, long lines
+            const E: &[&[u8]] = &[
+                b"\"", b"'", b"\"\\", b"\"\\x", b"\"\\u12", b"\"\\U0001F6", b"'a''", b"|", b">", b"|\n", b"|2\n a", b">9\n", b"|-\n\n\n", b"a: |\n", b"a: >\n  x\n y",
+                b"- |\n x", b"a: \"b\n", b"a: 'b\n", b"? |\n a\n: b", b"\"a\\\n", b"\"a\\\r\n b\"", b"a: \"\\", b"&", b"*", b"!", b"!!", b"!<", b"& a", b"*a: b", b"&a: b",
+                b"%", b"%YAML", b"%TAG !", b"--- |", b"--- >\n", b"---\"", b"...x", b"a:\t", b"\t", b"-\t-", b"?\t", b"a: #", b"#", b"a #", b"[#", b"{#", b"\xef\xbb\xbf",
+                b"\xef\xbb\xbfa: b", b"a: \xff", b"\xff: a", b"- \xc3", b"\"\xc3", b"'\xe2\x80", b"| \xff", b"a: b\r", b"a: b\r\r\n", b"\r", b"a:\r b", b"a\x00b", b": ",
+                b":", b"?", b"-", b"- -", b"? ?", b": :", b"a: b: c", b"a:\n- b\n c", b"[a", b"{a", b"[a,", b"{a:", b"{a: [", b"[a]]", b"}", b"]", b"a: ]", b"a: [b]c",
+            ];
+            let e = E[u.below(E.len())];
+            let mut v = match u.below(4) {
+                0 => vec![],
+                1 => b"k: v\nl:\n  - ".to_vec(),
+                2 => b"- a\n- ".to_vec(),
+                _ => {
+                    let mut t = soup::yaml_snippet(u);
+                    t.truncate(u.below(t.len() + 1));
+                    t
+                }
+            };
+            v.extend_from_slice(e);
+            if u.ratio(1, 4) {
+                v.extend_from_slice(b"\nz: 1\n");
+            }
+            Input::new(v, "src-edge")
+        }
+    }
+}
+
+fn gen_dsv_input(u: &mut Src) -> (Input, DsvConfig) {
+    let pick = |u: &mut Src| -> u8 {
+        if u.ratio(3, 4) {
+            *u.pick(b",;\t|\"'\n\r :a0")
+        } else {
+            u.byte()
+        }
+    };
+    let d = pick(u);
+    let mut q = pick(u);
+    while q == d {
+        q = q.wrapping_add(1);
+    }
+    let mut nl = pick(u);
+    while nl == d || nl == q {
+        nl = nl.wrapping_add(1);
+    }
+    let cfg = DsvConfig { delimiter: d, quote_char: q, newline: nl };
+    let n = u.len_biased(2000, &[63, 64, 65, 127, 128, 129, 255, 256, 257]);
+    let mut v = Vec::with_capacity(n);
+    let mode = u.below(4);
+    for _ in 0..n {
+        let b = match (mode, u.below(10)) {
+            (3, _) => u.byte(),
+            (_, 0) => d,
+            (_, 1) => q,
+            (_, 2) => nl,
+            (0, _) => b'a',
+            (1, 3) => b'\r',
+            (1, 4) => u.byte(),
+            (2, x) if x < 6 => *[d, q, nl].get(u.below(3)).unwrap(),
+            _ => u.range(0x20, 0x7e) as u8,
+        };
+        v.push(b);
+    }
+    let class = match mode {
+        0 => "src-grid",
+        1 => "src-text",
+        2 => "src-marker-heavy",
+        _ => "src-raw",
+    };
+    (Input::new(v, class), cfg)
+}
+
+fn gen_program(u: &mut Src) -> Input {
+    let fx = soup::fixtures();
+    match u.weighted(&[36, 22, 10, 14, 8, 10]) {
+        0 => Input::new(soup::program_soup(u, 30).into_bytes(), "src-soup"),
+        5 => {
+            // every string-literal context (interpolated strings, object keys, ."key", import
+            // paths, format strings) x hostile escape / content right after the opening quote
+            const CTX: &[(&str, &str)] = &[("", ""), ("{", ":1}"), (".", ""), (".[", "]"), ("import ", " as a; ."), ("include ", "; ."), ("@base64 ", ""), ("{a:", "}"), ("ltrimstr(", ")"), ("$__loc__|.", ""), ("{(", "):1}"), ("module {a:", "}; ."), (". as {", ":$x}|$x"), ("@json ", ""), ("test(", ";\"g\")"), ("[", "]"), ("..|", "?"), ("def f: ", "; f")];
+            const ESC: &[&str] = &["\\ud800", "\\udc00", "\\ud800\\udc00", "\\ud800\\u0041", "\\udbff\\udfff", "\\u", "\\u1", "\\u12g4", "\\uFFFF", "\\u0000", "\\x", "\\", "\\(", "\\(.", "\\(\"", "\\(\"\\(", "\\q", "\\/", "\\b\\f\\n\\r\\t", "\u{e9}", "\u{1f600}", "\u{0}", "\n", "\\(1)\\(2)", "\\(\\(", "\\()", "\\(;)", "\\u00e9\\(.a)\\ud83d\\ude00"];
+            let (pre, post) = *u.pick(CTX);
+            let mut s = String::from(pre);
+            s.push('"');
+            for _ in 0..u.range(0, 2) {
+                s.push_str(*u.pick(&["a", "", "k ", "\u{e9}"]));
+            }
+            for _ in 0..u.range(1, 3) {
+                s.push_str(*u.pick(ESC));
+            }
+            if !u.ratio(1, 5) {
+                s.push('"');
+                s.push_str(post);
+            }
+            Input::new(s.into_bytes(), "src-string-contexts")
+        }
+        1 if !fx.filters.is_empty() => {
+            let t = fx.filters[u.below(fx.filters.len())].as_bytes().to_vec();
+            let toks: Vec<&[u8]> = soup::JQ_TOKENS.iter().map(|s| s.as_bytes()).collect();
+            let (m, _) = soup::mutate(u, t, &toks);
+            Input::new(String::from_utf8_lossy(&m).into_owned().into_bytes(), "src-fixture-mutated")
+        }
+        2 => {
+            // random scalar values (any char)
+            let n = u.range(0, 24);
+            let mut s = String::new();
+            for _ in 0..n {
+                let c = match u.below(4) {
+                    0 => char::from_u32(u.range(0, 0x7f) as u32),
+                    1 => char::from_u32(u.range(0x80, 0x7ff) as u32),
+                    2 => char::from_u32(u.range(0x800, 0xffff) as u32),
+                    _ => char::from_u32(u.range(0x10000, 0x10ffff) as u32),
+                };
+                s.push(c.unwrap_or('\u{fffd}'));
+            }
+            Input::new(s.into_bytes(), "src-random-chars")
+        }
+        3 => {
+            // truncated fixture / soup (cuts strings, interpolations, keywords in half)
+            let t = if !fx.filters.is_empty() && u.bool() { fx.filters[u.below(fx.filters.len())].clone() } else { soup::program_soup(u, 30) };
+            let mut cut = u.below(t.len() + 1);
+            while !t.is_char_boundary(cut) {
+                cut -= 1;
+            }
+            Input::new(t[..cut].as_bytes().to_vec(), "src-truncated")
+        }
+        _ => {
+            let n = *u.pick(&[2usize, 10, 60, 200]);
+            let (o, i, c) = *u.pick(JQ_DEEP);
+            let mut x = repeat_recipe("", o, i, c, n, u.bool());
+            x.class = "src-nested".into();
+            x
+        }
+    }
+}
+
+const JQ_DEEP: &[(&str, &str, &str)] = &[
+    ("(", ".", ")"), ("[", ".", "]"), ("{a:", ".", "}"), (".[", "0", "]"), ("-", "1", ""), ("if . then ", ".", " else . end"), ("\"\\(", ".", ")\""),
+    ("not|", ".", ""), (".a", "", ""), ("1+", "1", ""), ("try ", ".", ""), ("def f: ", ".", "; f"), ("reduce . as $x (", ".", "; .)"), (". as $x|", ".", ""),
+    (".|", ".", ""), (".//", ".", ""), (".?", "", ""), (".[]?", "", ""), ("..", "", ""), ("[.[]|", ".", "]"), ("{(", ".", "):1}"), ("f(", ".", ")"),
+    ("label $a|", ".", ""), ("foreach . as $x (", ".", ";.;.)"), (". as [$a]|", ".", ""), (". and ", ".", ""), (".a=", ".", ""), ("@base64 \"\\(", ".", ")\""),
+    ("1,", "1", ""), ("\"a\"+", "\"a\"", ""), ("#", "", ""), ("- -", "1", ""), ("?//", ".", ""), (".a?.b", "", ""), ("import \"a\" as a;", ".", ""),
+];
+
+const JSON_DEEP: &[(&str, &str, &str, &str)] = &[
+    ("", "[", "", "]"), ("", "{\"a\":", "1", "}"), ("", "[{\"a\":", "", "}]"), ("", "[[],", "0", "]"), ("", "[1,", "", "]"), ("", "{\"a\":{\"b\":1},\"c\":", "2", "}"),
+    ("[", ",", "", ""), ("[", "1,", "1", ""), ("{", ":", "", ""), ("{", "\"k\":1,", "\"z\":0", ""), ("\"", "\\\\", "", ""), ("[\"", "\\u00e9", "\"]", ""),
+    ("", "9", "", ""), ("[", "[],", "[]", ""), ("", "]", "", ""), ("", "}", "", ""), ("", "[\"", "", "\"]"), ("", "\"", "", ""), ("-", "e", "", ""),
+];
+
+const YAML_DEEP: &[(&str, &str, &str, &str)] = &[
+    ("", "[", "", "]"), ("", "{a: ", "b", "}"), ("", "- ", "a", ""), ("", "? ", "a", ""), ("", "!t ", "a", ""), ("", "&a ", "a", ""), ("", "[{a: ", "b", "}]"),
+    ("", "- - ? ", "a", ""), ("a: ", "\"", "", ""), ("", "a: b\n", "", ""), ("", "- a\n", "", ""), ("", "- &a b\n- *a\n", "", ""), ("", "---\na\n", "", ""),
+    ("k: &a v\n", "j: *a\n", "", ""), ("k: &a {x: 1}\n", "j: {<<: *a}\n", "", ""), ("[", "a, ", "b]", ""), ("{", "a: b, ", "c: d}", ""), ("a: |\n", " x\n", "", ""),
+    ("", "# c\n", "a", ""), ("a: ", "b ", "", ""), ("'", "''", "'", ""), ("\"", "\\n", "\"", ""), ("", "? a\n", "", ""), ("", "a:\n", "", ""), ("", "-\n", "", ""),
+];
+
+fn gen_deep(u: &mut Src, table: &[(&str, &str, &str, &str)], sizes: &[usize]) -> Input {
+    let (pre, o, i, c) = table[u.below(table.len())];
+    let n = sizes[u.below(sizes.len())];
+    repeat_recipe(pre, o, i, c, n, u.bool())
+}
+
+/// `printers`: the sub-check prints whole documents (alias expansion makes long alias chains
+/// quadratic there, so they are kept shorter; the walk sub-check takes the long ones).
+fn gen_deep_yaml(u: &mut Src, sizes: &[usize], printers: bool) -> Input {
+    match u.below(10) {
+        0 => {
+            let n = *u.pick(&[50usize, 200, 600, 1200]);
+            let seq = u.bool();
+            Input { bytes: soup::yaml_staircase(n, seq), class: "deep:staircase".into(), recipe: Some(json!({"staircase": {"n": n, "seq": seq}})) }
+        }
+        1 => {
+            let n = if printers { *u.pick(&[200usize, 3000]) } else { *u.pick(&[200usize, 5000, 70000]) };
+            Input { bytes: alias_chain(n), class: "deep:alias-chain".into(), recipe: Some(json!({"alias_chain": {"n": n}})) }
+        }
+        2 | 3 => {
+            // `<<: *previous` chains: resolution is super-linear, sizes chosen to stay in seconds
+            let n = if printers { *u.pick(&[30usize, 150]) } else { *u.pick(&[150usize, 8000, 30_000]) };
+            Input { bytes: merge_chain(n), class: "deep:merge-chain".into(), recipe: Some(json!({"merge_chain": {"n": n}})) }
+        }
+        4 | 5 => {
+            let n = *u.pick(&[100usize, 5000, 60_000]);
+            let block = u.bool();
+            Input { bytes: alias_nest(n, block), class: "deep:alias-nest".into(), recipe: Some(json!({"alias_nest": {"n": n, "block": block}})) }
+        }
+        _ => gen_deep(u, YAML_DEEP, sizes),
+    }
+}
+
+// ---------------------------------------------------------------- dispatch
+
+fn dsv_cfg_from(extra: &Value) -> DsvConfig {
+    let g = |k: &str, d: u8| extra.get("dsv").and_then(|x| x.get(k)).and_then(|x| x.as_u64()).map(|x| x as u8).unwrap_or(d);
+    DsvConfig { delimiter: g("delimiter", b','), quote_char: g("quote", b'"'), newline: g("newline", b'\n') }
+}
+
+/// Run the subject of sub-check `sub` on `bytes`. Deterministic in (sub, bytes, extra).
+fn run_subject(sub: &str, bytes: &[u8], extra: &Value, known: &[String], st: &mut Stats) -> (Summary, Result<(), Fail>) {
+    let mut env = Env::new(sub, bytes, known);
+    let sm = match sub {
+        "json-lib" => json_subject(&mut env, bytes, G_ALL),
+        "json-simple" | "deep-json-simple" => simple_subject(&mut env, bytes),
+        "yaml-lib" => yaml_subject(&mut env, bytes, Y_ALL),
+        "dsv-lib" => dsv_subject(&mut env, bytes, &dsv_cfg_from(extra)),
+        "jq-parse" | "deep-jq-parse" => {
+            let s = String::from_utf8_lossy(bytes);
+            parse_subject(&mut env, &s)
+        }
+        "deep-json-build" => json_subject(&mut env, bytes, G_BUILD | G_VALIDATE),
+        "deep-json-walk" => json_subject(&mut env, bytes, G_WALK),
+        "deep-json-offsets" => json_subject(&mut env, bytes, G_OFFSETS),
+        "deep-json-stream-json" => json_subject(&mut env, bytes, G_STREAM_JSON),
+        "deep-json-stream-yaml" => json_subject(&mut env, bytes, G_STREAM_YAML),
+        "deep-yaml-build" => yaml_subject(&mut env, bytes, Y_VALIDATE),
+        "deep-yaml-walk" => yaml_subject(&mut env, bytes, Y_WALK | Y_OFFSETS),
+        "deep-yaml-json-out" => yaml_subject(&mut env, bytes, Y_JSON_OUT),
+        "deep-yaml-yaml-out" => yaml_subject(&mut env, bytes, Y_YAML_OUT),
+        _ => Summary::default(),
+    };
+    let r = env.finish(st);
+    (sm, r)
+}
+
+fn classify(inp: &Input, sm: &Summary, st: &mut Stats) {
+    st.class(&inp.class);
+    st.size(inp.bytes.len());
+    st.class(if sm.loader_ok { "loader-accepts" } else { "loader-rejects" });
+    st.class(if sm.validator_ok { "validator-accepts" } else { "validator-rejects" });
+    if sm.loader_ok && !sm.validator_ok && sm.nodes >= 3 {
+        st.class("nontrivial:loader-accepts>=3-nodes,validator-rejects");
+        st.nontrivial(hash_bytes(&inp.bytes));
+        st.sample(&inp.class, || json!(show_bytes(&inp.bytes)));
+    }
+    if std::str::from_utf8(&inp.bytes).is_err() {
+        st.class("invalid-utf8");
+    }
+}
+
+// ---------------------------------------------------------------- one-shot isolated replay
+
+/// Child side of `replay_isolated`: VH_C19_ONE=<file with {"subcheck","input"}>.
+fn one_shot_child(path: &str) -> ! {
+    let lim = libc::rlimit { rlim_cur: 6 << 30, rlim_max: 6 << 30 };
+    let z = libc::rlimit { rlim_cur: 0, rlim_max: 0 };
+    unsafe {
+        libc::setrlimit(libc::RLIMIT_AS, &lim);
+        libc::setrlimit(libc::RLIMIT_CORE, &z);
+    }
+    let v: Value = std::fs::read_to_string(path).ok().and_then(|t| serde_json::from_str(&t).ok()).unwrap_or(Value::Null);
+    let sub = v["subcheck"].as_str().unwrap_or("").to_string();
+    let out = match input_from_json(&v["input"]) {
+        None => json!({"c19_one": 1, "error": "unreadable input"}),
+        Some(bytes) => {
+            let mut st = Stats::default();
+            // strict: nothing is "known" here, every failure is reported to the parent
+            let (_, r) = run_subject(&sub, &bytes, &v["input"], &[], &mut st);
+            match r {
+                Ok(()) => json!({"c19_one": 1, "fail": null}),
+                Err(f) => json!({"c19_one": 1, "fail": {"sig": f.sig, "detail": f.detail}}),
+            }
+        }
+    };
+    println!("{}", out);
+    std::process::exit(0)
+}
+
+/// Run one structured input through the subject in a fresh process. Ok(None) = passed.
+fn replay_isolated(cx: &Ctx, sub: &str, input: &Value) -> Result<Option<Fail>, String> {
+    use std::os::unix::process::ExitStatusExt;
+    let dir = format!("{}/out/tmp", cx.root);
+    let _ = std::fs::create_dir_all(&dir);
+    let stem = format!("{}/c19-one-{}-{:016x}", dir, std::process::id(), hash_str(&format!("{}{}", sub, input)));
+    let inp = format!("{}.json", stem);
+    let outp = format!("{}.out", stem);
+    let errp = format!("{}.err", stem);
+    std::fs::write(&inp, json!({"subcheck": sub, "input": input}).to_string()).map_err(|e| e.to_string())?;
+    let exe = std::env::current_exe().map_err(|e| e.to_string())?;
+    let mut child = std::process::Command::new(exe)
+        .args(["run", "C19", "quick"])
+        .env("VH_C19_ONE", &inp)
+        .env("RUST_BACKTRACE", "0")
+        .env_remove("VH_CHILD_SUB")
+        .stdin(std::process::Stdio::null())
+        .stdout(std::fs::File::create(&outp).map_err(|e| e.to_string())?)
+        .stderr(std::fs::File::create(&errp).map_err(|e| e.to_string())?)
+        .spawn()
+        .map_err(|e| e.to_string())?;
+    let t0 = std::time::Instant::now();
+    let status = loop {
+        match child.try_wait() {
+            Ok(Some(s)) => break s,
+            Ok(None) if t0.elapsed().as_secs() > 60 => {
+                let _ = child.kill();
+                let _ = child.wait();
+                for p in [&inp, &outp, &errp] {
+                    let _ = std::fs::remove_file(p);
+                }
+                return Err(format!("replay of {} did not finish within 60 s", sub));
+            }
+            Ok(None) => std::thread::sleep(std::time::Duration::from_millis(3)),
+            Err(e) => return Err(e.to_string()),
+        }
+    };
+    let out = std::fs::read_to_string(&outp).unwrap_or_default();
+    let err = std::fs::read_to_string(&errp).unwrap_or_default();
+    for p in [&inp, &outp, &errp] {
+        let _ = std::fs::remove_file(p);
+    }
+    if status.success() {
+        let line = out.lines().rev().find(|l| l.starts_with("{\"c19_one\"")).ok_or("worker printed no result")?;
+        let v: Value = serde_json::from_str(line).map_err(|e| e.to_string())?;
+        if let Some(e) = v.get("error") {
+            return Err(format!("replay worker: {}", e));
+        }
+        if v["fail"].is_null() {
+            return Ok(None);
+        }
+        return Ok(Some(Fail::new(v["fail"]["sig"].as_str().unwrap_or("?"), v["fail"]["detail"].clone())));
+    }
+    // the worker died: same signature scheme as isolate.rs
+    let kind = if err.contains("has overflowed its stack") || err.contains("stack overflow") {
+        "stack-overflow".to_string()
+    } else if err.contains("memory allocation of ") || err.contains("capacity overflow") {
+        "impossible-allocation".to_string()
+    } else if let Some(s) = status.signal() {
+        format!("signal-{}", s)
+    } else {
+        format!("exit-{}", status.code().unwrap_or(-1))
+    };
+    let tail: String = err.chars().rev().take(400).collect::<String>().chars().rev().collect();
+    Ok(Some(Fail::new(format!("C19/{}/process-abort/{}", sub, kind), json!({"stderr_tail": tail, "input": input}))))
+}
+
+// ---------------------------------------------------------------- CLI subject (E2)
+
+const CLI_CMDS: &[(&str, &[&str])] = &[
+    ("jq-dot", &["jq", "."]),
+    ("jq-c", &["jq", "-c", "."]),
+    ("yq-dot", &["yq", "."]),
+    ("yq-json", &["yq", "-o", "json", "."]),
+    ("jq-input-dsv", &["jq", "--input-dsv", ",", "."]),
+];
+
+/// "thread 'main' panicked at src/x.rs:1:2:\nmsg" -> (location, message)
+fn parse_cli_panic(stderr: &str) -> Option<(String, String)> {
+    let i = stderr.find("panicked at ")?;
+    let rest = &stderr[i + "panicked at ".len()..];
+    let line_end = rest.find('\n').unwrap_or(rest.len());
+    let loc = rest[..line_end].trim_end_matches(':').to_string();
+    let msg: String = rest[line_end..].trim_start().lines().next().unwrap_or("").to_string();
+    // strip the column so engine::panic_sig (which strips one ":N") leaves file only
+    let loc = match loc.rsplit_once(':') {
+        Some((a, b)) if b.chars().all(|c| c.is_ascii_digit()) && a.contains(':') => a.to_string(),
+        _ => loc,
+    };
+    Some((loc, msg))
+}
+
+fn cli_case(bytes: &[u8], st: &mut Stats) -> Result<(), Fail> {
+    let path = cli::write_tmp("c19-in", bytes);
+    let ps = path.to_string_lossy().to_string();
+    let mut first: Option<Fail> = None;
+    for (name, args) in CLI_CMDS {
+        let mut a: Vec<&str> = args.to_vec();
+        a.push(&ps);
+        let o = cli::run_with(&cli::cli_path(), &a, None, std::time::Duration::from_secs(10), &[]);
+        st.evals(1);
+        if o.timed_out {
+            st.class("cli-timeout-discarded");
+            st.class(&format!("cli-timeout:{}", name));
+            st.discard();
+            continue;
+        }
+        st.class(&format!("{}:exit-{}", name, o.code.map(|c| c.to_string()).unwrap_or_else(|| "signal".into())));
+        if o.crashed() {
+            let err = o.stderr_str();
+            let mut sig = match parse_cli_panic(&err) {
+                Some((loc, msg)) => format!("C19/cli/panic@{}/{}", site_of(&loc), msg_class(&msg)),
+                None => format!("C19/cli/{}/signal-{}", name.split('-').next().unwrap_or(name), o.signal.unwrap_or(0)),
+            };
+            if let Some(n) = guard_limit(&err) {
+                if soup::nesting_measure(bytes) > n {
+                    st.class("documented-depth-guard-tolerated");
+                    continue;
+                }
+                sig = format!("C19/cli/depth-guard-below-limit");
+            }
+            if first.is_none() {
+                let tail: String = err.chars().take(600).collect();
+                let mut d = json!({"command": args, "exit": o.code, "signal": o.signal, "stderr": tail, "input_len": bytes.len(), "input": show_bytes(bytes)});
+                if bytes.len() <= 4096 {
+                    d["input_hex"] = json!(hex(bytes));
+                }
+                first = Some(Fail::new(sig, d));
+            }
+        }
+    }
+    let _ = std::fs::remove_file(&path);
+    match first {
+        Some(f) => Err(f),
+        None => Ok(()),
+    }
+}
+
+fn gen_cli_input(u: &mut Src) -> Input {
+    match u.weighted(&[36, 41, 12, 4, 7]) {
+        0 => gen_json_input(u),
+        1 => gen_yaml_input(u),
+        2 => {
+            let (mut i, _) = gen_dsv_input(u);
+            i.class = format!("dsv-{}", i.class);
+            i
+        }
+        3 => {
+            let sizes = [300usize, 3000, 20_000];
+            if u.bool() {
+                gen_deep(u, JSON_DEEP, &sizes)
+            } else {
+                let d = gen_deep_yaml(u, &sizes, true);
+                if d.class == "deep:alias-nest" && d.bytes.len() > 20_000 {
+                    // `yq -o json` expands nested aliases: quadratic output, only small ones here
+                    let block = u.bool();
+                    Input { bytes: alias_nest(300, block), class: d.class, recipe: Some(json!({"alias_nest": {"n": 300, "block": block}})) }
+                } else {
+                    d
+                }
+            }
+        }
+        _ => {
+            // multi-value streams / concatenations
+            let mut v = vec![];
+            for _ in 0..u.range(2, 5) {
+                let mut p = if u.bool() { gen_json_input(u).bytes } else { gen_yaml_input(u).bytes };
+                p.truncate(400);
+                v.extend(p);
+                v.extend_from_slice(*u.pick(&[&b"\n"[..], b" ", b"", b"\n---\n", b"\x1e", b","]));
+            }
+            Input::new(v, "src-concat")
+        }
+    }
+}
+
+// ---------------------------------------------------------------- run
+
+fn lib_case(sub: &str, inp: Input, extra: Value, known: &[String], st: &mut Stats) -> Result<(), Fail> {
+    st.describe(|| {
+        let mut d = json!({"subcheck": sub, "class": inp.class, "len": inp.bytes.len(), "input": inp.to_json()});
+        if !extra.is_null() {
+            d["input"]["dsv"] = extra["dsv"].clone();
+        }
+        d
+    });
+    let (sm, r) = run_subject(sub, &inp.bytes, &extra, known, st);
+    classify(&inp, &sm, st);
+    r
+}
 
 pub fn run(cx: &mut Ctx) {
-    cx.infra("check not built");
+    if let Ok(p) = std::env::var("VH_C19_ONE") {
+        one_shot_child(&p);
+    }
+    if let Ok(spec) = std::env::var("VH_C19_DECODE") {
+        // development aid: VH_C19_DECODE=<subcheck>:<entropy hex> prints the generated input
+        let (sub, h) = spec.split_once(':').unwrap_or(("", ""));
+        let ent = if let Some(idx) = h.strip_prefix('#') {
+            // "#<case index>[@max_len]": regenerate the entropy of that case of the search
+            use proptest::strategy::{Strategy, ValueTree};
+            let (i, ml) = idx.split_once('@').unwrap_or((idx, "2048"));
+            let mut runner = runner_for(cx.sub_seed(sub), i.parse().unwrap_or(0));
+            EntropyStrategy { max_len: ml.parse().unwrap_or(2048) }.new_tree(&mut runner).map(|t| t.current().0).unwrap_or_default()
+        } else {
+            unhex(h)
+        };
+        let mut u = Src::new(&ent);
+        let sizes = [300usize, 3000, 30_000, 200_000];
+        let inp = match sub {
+            "json-lib" | "json-simple" => gen_json_input(&mut u),
+            "yaml-lib" => gen_yaml_input(&mut u),
+            "jq-parse" => gen_program(&mut u),
+            "dsv-lib" => gen_dsv_input(&mut u).0,
+            "cli" => gen_cli_input(&mut u),
+            "deep-jq-parse" => {
+                let (o, i, c) = *u.pick(JQ_DEEP);
+                let n = *u.pick(&[300usize, 3000, 30_000]);
+                repeat_recipe("", o, i, c, n, u.bool())
+            }
+            s if s.starts_with("deep-json") => gen_deep(&mut u, JSON_DEEP, &sizes),
+            s => gen_deep_yaml(&mut u, &sizes, s.ends_with("-out")),
+        };
+        println!("{}", json!({"class": inp.class, "len": inp.bytes.len(), "input": inp.to_json(), "hex": if inp.bytes.len() <= 8192 { hex(&inp.bytes) } else { String::new() }}));
+        std::process::exit(0);
+    }
+    cx.assume("the harness build (release + debug-assertions + overflow-checks, default features, runtime SIMD dispatch of this host) is representative of the library; the CLI is /repo's release binary");
+    cx.assume("walks are bounded (3000 nodes, 2048 sampled offsets, 2 MiB of printer output per call): a crash reachable only beyond those bounds is not seen");
+    cx.assume("a documented depth-guard panic ('nesting depth exceeds limit of N') is tolerated only when an over-approximate nesting measure of the input (bracket depth, indentation levels, indicator runs, alias count) exceeds N");
+    let known: Vec<String> = cx.known.iter().filter(|k| k.status == "known").map(|k| k.signature.clone()).collect();
+    let fx = soup::fixtures();
+    if !cx.is_child() {
+        for m in &fx.missing {
+            cx.note(format!("fixture source missing, skipped: {}", m));
+        }
+        cx.extra.insert("fixtures".into(), json!({"yaml": fx.yaml.len(), "json": fx.json.len(), "filters": fx.filters.len()}));
+    }
+
+    // 1. committed structured replays, strict, each in its own process (they may abort it)
+    if !cx.is_child() {
+        for (name, v) in cx.replays.clone() {
+            if v["kind"] != "input" {
+                continue;
+            }
+            let sub = v["subcheck"].as_str().unwrap_or("").to_string();
+            if sub == "cli" {
+                if !cli::cli_available() {
+                    cx.infra(format!("CLI binary missing: {}", cli::cli_path()));
+                    continue;
+                }
+                let r = match input_from_json(&v["input"]) {
+                    Some(b) => cli_case(&b, &mut Stats::default()).err(),
+                    None => Some(Fail::new("C19/replay/unreadable", json!({"file": name}))),
+                };
+                cx.replay_outcome(&name, r);
+                continue;
+            }
+            match replay_isolated(cx, &sub, &v["input"]) {
+                Ok(r) => cx.replay_outcome(&name, r),
+                Err(e) => cx.infra(format!("replay {}: {}", name, e)),
+            }
+        }
+    }
+
+    let iso = |chunk: u64| IsoOpts { watchdog_s: 30, rlimit_as_gib: 6, chunk, hang_is_inconclusive: true };
+    let k = &known;
+
+    // 2. library, general inputs
+    cx.check_isolated("json-lib", "JsonIndex::build + validate + walk (every accessor) + offsets + stream_json/stream_yaml", Budget { quick: 16_000, thorough: 600_000, max_len: 2048 }, iso(1000), |u, st| {
+        let inp = gen_json_input(u);
+        lib_case("json-lib", inp, Value::Null, k, st)
+    });
+    cx.check_isolated("json-simple", "SimpleJsonIndex: structural_*, find_close, skip_value, children at every position", Budget { quick: 6_000, thorough: 250_000, max_len: 2048 }, iso(1000), |u, st| {
+        let inp = gen_json_input(u);
+        lib_case("json-simple", inp, Value::Null, k, st)
+    });
+    cx.check_isolated("yaml-lib", "YamlIndex::build + validate + walk (every accessor) + offsets + JSON/YAML printers", Budget { quick: 20_000, thorough: 700_000, max_len: 2048 }, iso(1000), |u, st| {
+        let inp = gen_yaml_input(u);
+        lib_case("yaml-lib", inp, Value::Null, k, st)
+    });
+    cx.check_isolated("dsv-lib", "build_index (SIMD + scalar) under random distinct (delimiter, quote, newline) + rows/fields/get/goto_row", Budget { quick: 6_000, thorough: 250_000, max_len: 3000 }, iso(1000), |u, st| {
+        let (inp, cfg) = gen_dsv_input(u);
+        let extra = json!({"dsv": {"delimiter": cfg.delimiter, "quote": cfg.quote_char, "newline": cfg.newline}});
+        let quotes = inp.bytes.iter().filter(|&&b| b == cfg.quote_char).count();
+        let r = lib_case("dsv-lib", inp, extra, k, st);
+        st.class_if(quotes % 2 == 1, "odd-quotes");
+        st.class_if(!cfg.delimiter.is_ascii() || !cfg.quote_char.is_ascii() || !cfg.newline.is_ascii(), "non-ascii-config");
+        r
+    });
+    cx.check_isolated("jq-parse", "jq::parse, parse_program, parse_with_mode(Yq), parse_program_with_mode(Yq) on hostile program strings", Budget { quick: 12_000, thorough: 600_000, max_len: 1024 }, iso(2000), |u, st| {
+        let inp = gen_program(u);
+        lib_case("jq-parse", inp, Value::Null, k, st)
+    });
+    for (sub, cls) in [("json-lib", "src-soup"), ("json-lib", "src-truncated"), ("json-lib", "src-raw"), ("json-lib", "src-fixture-mutated"), ("json-lib", "src-edge"), ("json-lib", "invalid-utf8"), ("yaml-lib", "src-soup"), ("yaml-lib", "src-fixture-mutated"), ("yaml-lib", "src-truncated"), ("yaml-lib", "src-raw"), ("yaml-lib", "src-edge"), ("yaml-lib", "src-anchors"), ("jq-parse", "src-soup"), ("jq-parse", "src-fixture-mutated"), ("jq-parse", "src-string-contexts"), ("dsv-lib", "odd-quotes")] {
+        // fixture-derived classes cannot be demanded when the fixture files are absent
+        if !(cls.contains("fixture") && !fx.missing.is_empty()) {
+            cx.require_class(sub, cls, 20);
+        }
+    }
+    for sub in ["json-lib", "yaml-lib"] {
+        cx.require_class(sub, "nontrivial:loader-accepts>=3-nodes,validator-rejects", 50);
+    }
+
+    // 3. library, deep shapes: one API group per sub-check so a dead worker names the group
+    let thorough = cx.tier == Tier::Thorough;
+    let sizes: Vec<usize> = if thorough { vec![300, 3000, 30_000, 200_000, 1_000_000] } else { vec![300, 3000, 30_000, 200_000] };
+    let sz = &sizes;
+    let ysizes: Vec<usize> = if thorough { vec![300, 3000, 30_000, 200_000] } else { vec![300, 3000, 30_000] };
+    let ysz = &ysizes;
+    let deep_budget = Budget { quick: 40, thorough: 400, max_len: 64 };
+    let db = || Budget { quick: deep_budget.quick, thorough: deep_budget.thorough, max_len: 64 };
+    for sub in ["deep-json-build", "deep-json-walk", "deep-json-offsets", "deep-json-stream-json", "deep-json-stream-yaml", "deep-json-simple"] {
+        cx.check_isolated(sub, "one unit repeated n times (n in 300..200k, thorough 1M), one API group", db(), iso(4), |u, st| {
+            let inp = gen_deep(u, JSON_DEEP, sz);
+            lib_case(sub, inp, Value::Null, k, st)
+        });
+    }
+    for sub in ["deep-yaml-build", "deep-yaml-walk", "deep-yaml-json-out", "deep-yaml-yaml-out"] {
+        cx.check_isolated(sub, "flow/indicator units repeated n times (300..30k, thorough 200k), indentation staircases, alias chains, alias nesting and merge chains; one API group", db(), iso(4), |u, st| {
+            // parse + validate only is cheap: the build sub-check takes the larger sizes too
+            let inp = gen_deep_yaml(u, if sub == "deep-yaml-build" { sz } else { ysz }, sub.ends_with("-out"));
+            lib_case(sub, inp, Value::Null, k, st)
+        });
+    }
+    cx.check_isolated("deep-jq-parse", "one program construct repeated n times (n in 300..30k)", Budget { quick: 70, thorough: 700, max_len: 64 }, iso(4), |u, st| {
+        let (o, i, c) = *u.pick(JQ_DEEP);
+        let n = *u.pick(&[300usize, 3000, 30_000]);
+        let inp = repeat_recipe("", o, i, c, n, u.bool());
+        lib_case("deep-jq-parse", inp, Value::Null, k, st)
+    });
+
+    // 4. CLI (E2), same byte generators (VH_C19_SKIP_CLI: development aid for library-only runs)
+    if !cx.skip("cli") && std::env::var("VH_C19_SKIP_CLI").is_err() {
+        if !cli::cli_available() {
+            cx.infra(format!("CLI binary missing: {}", cli::cli_path()));
+        } else {
+            cx.check("cli", "jq . | jq -c . | yq . | yq -o json . | jq --input-dsv , . on a file holding the generated bytes; crash = exit 101 or signal", Budget { quick: 3_000, thorough: 60_000, max_len: 2048 }, |u, st| {
+                let inp = gen_cli_input(u);
+                st.describe(|| json!({"subcheck": "cli", "class": inp.class, "len": inp.bytes.len(), "input": inp.to_json()}));
+                st.class(&inp.class);
+                st.size(inp.bytes.len());
+                let r = cli_case(&inp.bytes, st);
+                // non-trivial for the CLI: judged by the library loaders, in-process on small inputs only
+                if inp.bytes.len() <= 4096 && !inp.class.starts_with("deep") {
+                    let acc = catch(|| YamlIndex::build(&inp.bytes).map(|ix| ix.bp().len() / 2).unwrap_or(0)).unwrap_or(0);
+                    let strict = catch(|| succinctly::yaml::validate::validate(&inp.bytes).is_ok() || succinctly::json::validate::validate(&inp.bytes).is_ok()).unwrap_or(false);
+                    if acc >= 3 && !strict {
+                        st.nontrivial(hash_bytes(&inp.bytes));
+                    }
+                }
+                r
+            });
+            let to = cx.subs.iter().find(|s| s.name == "cli").and_then(|s| s.stats.classes.get("cli-timeout-discarded").copied()).unwrap_or(0);
+            if to > 0 {
+                cx.note(format!("cli: {} command run(s) hit the 10 s CLI watchdog and were discarded", to));
+            }
+            cli::cleanup();
+        }
+    }
 }
